@@ -132,10 +132,10 @@ pub fn deque_max(q: &VecDeque<T>) -> (r: Option<T>)
 #[verifier::external_body]
 pub fn ctor_reject() ensures false { panic!("constructor rejected its arguments") }
 
-#[verifier::external_body]
 // std's Clone for buffers of Copy scalars: an equal sequence in a fresh allocation (trusted)
 #[verifier::external_body] pub fn deque_clone(q: &VecDeque<T>) -> (r: VecDeque<T>) ensures r@ == q@ { q.clone() }
 #[verifier::external_body] pub fn vec_clone(q: &Vec<T>) -> (r: Vec<T>) ensures r@ == q@ { q.clone() }
+#[verifier::external_body]
 pub fn vec_last(v: &Vec<T>) -> (r: Option<T>)
     ensures r == (if v@.len() > 0 { Some(v@[v@.len() - 1]) } else { None::<T> })
 { unimplemented!() }
